@@ -25,11 +25,13 @@ from contracts import ppcmodel as pm
 from contracts import C25
 
 PROP = "C24"
-MIN_OBLIGATIONS = 60
+MIN_OBLIGATIONS = 400
 TC = "pandapower.create.trafo_create"
 LC = "pandapower.create.line_create"
-NOT_DECIDED = ["bounded stand-in only (fixed vectors, replaylib.createpairs): buses, loads, sgens, gens, storages, shunts, wards, switches, "
-               "impedances, poly/pwl cost rows; non-existent buses and duplicate indices (the checks are shared helper functions)"]
+NOT_DECIDED = ["bounded stand-in only (fixed vectors, replaylib.createpairs): buses, switches, poly/pwl cost rows, sgens, create_line(s)_from_parameters, "
+               "create_transformer(s)_from_parameters; non-existent buses and duplicate indices (the checks are shared helper functions)",
+               "loads, gens, storages, shunts, wards, impedances (sgens: bounded only, generator_type dispatch on a pandas string Series): string-valued parameters (name, type, generator_type, curve_style) keep their "
+               "defaults in both calls; argument values the single call refuses (UserWarning) are outside the compared domain"]
 
 KNOWN = "C24/create_transformers-drops-std-type-tap-and-shift"
 TRAFO_DROPPED = ("shift_degree", "tap_side", "tap_neutral", "tap_min", "tap_max", "tap_step_percent", "tap_step_degree", "tap_changer_type",
@@ -230,6 +232,11 @@ def run(vc):
                max_paths=400)
 
 
+    # ---- the pairs that take their parameters as arguments (signatures read from the source) ----------------------------------
+    from contracts import C24_pairs
+    import sys
+    C24_pairs.add(vc, sys.modules[__name__], sp)
+
     # ---- bounded stand-in for the remaining pairs and the rejection behaviour -------------------------------------------------
     if not hasattr(vc, "native_standins"):
         vc.native_standins = []
@@ -239,6 +246,11 @@ def run(vc):
               "trafo3w, poly_cost, pwl_cost) and 8 rejection scenarios (duplicate costs, non-existent bus, duplicate index); the listed known "
               "finding (create_transformers from a standard type) is excluded",
         script="from replaylib.createpairs import main_pairs\nmain_pairs(None, skip=('create_transformer(s) from',))\n"))
+    vc.native_standins.append(dict(
+        name="create pairs on argument vectors generated from the real signatures",
+        bound="load, sgen, gen, storage, shunt, ward, impedance: 3-element vectors for every numeric / flag parameter of the signature, 3 patterns "
+              "(all given, optional ones NaN in odd rows, required only) x 2 (empty table, table with a row that has every optional column)",
+        script="from replaylib.createpairs import main_parpairs_all\nmain_parpairs_all(skip=('line', 'trafo'))\n"))
 
 
 def C25_input_error(exc):
@@ -252,6 +264,9 @@ def classify(ob, model):
 
 def replay(ob, model, finding=None):
     pair = ob.meta.get("pair", "")
+    if pair.endswith("-par") and pair != "t3-par":
+        return {"script": f"# replay of {ob.id}\nfrom replaylib.createpairs import main_parpair\nmain_parpair({pair[:-4]!r})\n",
+                "description": "the batch create call against the sequence of single calls on argument vectors generated from the real signature"}
     only = {"t3-par": "3w_from_parameters", "t3-std": "3w from std", "line-std": "create_line(s) from std", "trafo-std": "create_transformer(s) from"}.get(pair)
     return {"script": f"# replay of {ob.id}\nfrom replaylib.createpairs import main_pairs\nmain_pairs({only!r})\n",
             "description": "the batch create call against the sequence of single calls on fixed argument vectors"}
